@@ -117,10 +117,10 @@ check("C04", "PVM",
       rule="part A: compiler-like programs run by the block engine with EVERY gas limit g in 0..S+1 (S = model steps to termination, 300 for looping programs) and compared with refpvm run with the same g (exit, remaining gas, registers, memory, pc); "
            "part B: Psi_M on standard programs (random o/w/z/s, argument) with limits {4 random < 150} + 2 of {2^31, 2^32, 2^62, 2^63-1, 2^63, 2^63+1, 2^64-1} and recording omegas charging 10: reported gas used must be within [0, limit], equal limit - max(remaining,0) of the model, result kind equal. "
            "part C: sequences of 1..40 calls of the REAL accumulate/refine host calls on a generated context (the C07 driver): every call costs exactly 10, a call with gas < 10 is out-of-gas without effects, a successful transfer costs 10 + l in exact unsigned arithmetic and l may not exceed the gas left (l drawn from small values, around the remaining gas, the 64-bit boundary pool and around 2^63). "
-           "distinct_nontrivial = distinct programs with >= 2 steps + distinct (program, wrapper) pairs + host-call sequences",
+           "part D: `ecalli id; trap` through Psi_H with every limit 1..14 and ids that are known, unknown or defined in the other table only: with fewer than 10 units left after the ecalli the invocation ends out-of-gas without any effect and the gas it reports as used is the whole limit; with exactly 10 the call is paid and 0 is left. distinct_nontrivial = distinct programs with >= 2 steps + distinct (program, wrapper) pairs + host-call sequences",
       technique="reference-model monitor at every gas limit 0..S+1 (gas-stepping) + invocation-result monitor for Psi_M with limits up to 2^64-1 + charge monitor wrapped around the real host-call tables",
       level_text="Every prefix of every generated execution is checked by running it with each smaller gas limit; reported usage is checked up to the largest representable limit. Held = no divergence on what was explored.",
-      note=PVM_NOTE, shards=(8, 16), floors={"any": {"limit_runs": 50000, "oog_strictly_inside": 20000, "psim_runs": 8000, "psim_limits_ge_2^63": 500, "calls": 50000, "transfer_calls_ok": 300, "transfer_calls_oog": 100, "transfer_calls_with_l_ge_2^63": 100}})
+      note=PVM_NOTE, shards=(8, 16), floors={"any": {"limit_runs": 50000, "oog_strictly_inside": 20000, "psim_runs": 8000, "psim_limits_ge_2^63": 500, "calls": 50000, "transfer_calls_ok": 300, "transfer_calls_oog": 100, "transfer_calls_with_l_ge_2^63": 100, "host_calls_the_gas_could_not_pay_for": 700, "host_calls_paid_with_the_last_units": 50, "host_calls_the_gas_could_just_pay_for": 150}})
 
 check("C05", "PVM",
       rule="part A: straight-line programs of loads/stores of every width and addressing form (direct, immediate, indirect, immediate-indirect) aimed at +-10 bytes around the edges of read-write, read-only and unmapped pages, 2^16 and the top of the address space; the block engine is run with gas 0,1,2,... and every pair of consecutive states is checked against a shadow page map: "
@@ -351,13 +351,13 @@ check("C30", "internal/zzverif/c30",
       assumptions=[STANDIN_VRF, "third-party crate reed-solomon-simd replaced by a stand-in MDS code (standin/rs-simd)"])
 
 check("C22", "internal/accumulation",
-      rule="case = one accumulation round: 2..4 sender services and 1..2 receiver services with purpose-built PVM code (a sender emits 5..20 transfers with memo = (marker, sender tag, counter), three quarters of them to the first receiver; a receiver fetches the whole input sequence and writes it under one storage key, so the delivery order becomes state; service identifiers are small in a third of the rounds, random 32-bit values in a third, and in a third from the values that conversions through rune / int32 / uint16 would fold together: 0xD800.., 0x110000.., around 2^31, near 2^32, equal low halves; in half of the rounds the senders count down 3000 or 30000 iterations first so that their accumulations overlap in time), W* with one work result per sender; "
+      rule="case = one accumulation round: 2..4 sender services and 1..2 receiver services with purpose-built PVM code (a sender emits 5..20 transfers with memo = (marker, sender tag, counter), three quarters of them to the first receiver; a receiver fetches the whole input sequence and writes it under one storage key, so the delivery order becomes state; service identifiers are small in a third of the rounds, random 32-bit values in a third, and in a third from the values that conversions through rune / int32 / uint16 would fold together: 0xD800.., 0x110000.., around 2^31, near 2^32, equal low halves; in half of the rounds the senders count down 3000 or 30000 iterations first so that their accumulations overlap in time; in half of the rounds the first sender also yields the head of its input sequence and receives a transfer, so that it is accumulated in two batches of the block and leaves two entries in the output log), W* with one work result per sender; "
            "accumulation.DeferredTransfers() is executed 12..24 times from identical deep copies of the prior state with types.MaxWorkers cycling through {1,2,32} and GOMAXPROCS through {16,1,2} (every execution draws fresh map-iteration orders), and a canonical projection of everything left behind (every account with storage, preimages and lookups; privileges; authorisation queues; next validators; accumulation outputs; gas statistics; accumulated history; ready queue; raw key-values as a set) must be equal across executions. distinct_nontrivial = distinct scenarios",
       technique="run-vs-run equality monitor (the same round replayed under different worker limits, GOMAXPROCS and map-iteration draws), order made observable by recording services; Go race detector",
       level_text="Each generated round is executed 12..24 times under different scheduling parameters and the complete posterior projections are compared; the race detector watches the fan-out. Held = all executions of every round identical and no race report.",
       note="In-package harness (drives the blockchain singleton like jamtests/accumulate; W* is set directly, the queue equations are C21's subject). Only determinism is judged, not whether the delivery order is the Gray Paper's.",
       shards=(8, 16), race=True, env={"JAM_FUZZ": "1"}, timeout=(1200, 7200),
-      floors={"any": {"rounds": 100, "repeated_runs_compared": 1200, "rounds_with_more_than_a_dozen_transfers_to_one_receiver": 60, "transfers_recorded_by_receivers": 2000, "rounds_with_boundary_service_ids": 20, "rounds_with_random_32_bit_service_ids": 20, "rounds_with_long_running_senders": 30}},
+      floors={"any": {"rounds": 100, "repeated_runs_compared": 1200, "rounds_with_more_than_a_dozen_transfers_to_one_receiver": 60, "transfers_recorded_by_receivers": 2000, "rounds_with_boundary_service_ids": 20, "rounds_with_random_32_bit_service_ids": 20, "rounds_with_long_running_senders": 30, "rounds_whose_output_log_has_two_entries_of_one_service": 15}},
       assumptions=[STANDIN_VRF])
 
 check("C23", "internal/zzverif/c23",
